@@ -192,6 +192,8 @@ class PublicSim(object):
                 out["connects"] += 1
             elif k == "lose":
                 out["loses"] += 1
+            elif k == "reset_timer":
+                self.B("C11_timer_never_rearmed", "DelayedCall %d was reset / delayed: a request's deadline must not move" % e[1])
         del self.log[:]
         if len(self.clock.getDelayedCalls()) != len(self.armed):
             self.B("C11_timer_released", "reactor holds %d DelayedCalls, the trace accounts for %d" % (len(self.clock.getDelayedCalls()), len(self.armed)))
